@@ -106,6 +106,7 @@ pub fn states(tier: &str) -> Vec<State> {
             out.push(State { label: format!("builtin {l} as element and attribute"), depth: 1, set: s });
         }
     }
+    out.extend(c02::component_states());
     out.extend(rename_states());
     out.extend(multi_file_states());
     out.extend(wsdlgen::wsdl_states(tier == "thorough"));
